@@ -20,7 +20,14 @@ def check(case):
     res = R()
     sp = case["spec"]
     with specmod.quiet():
-        M = specmod.to_model(sp, share_dicts=bool(case.get("share_dicts")))
+        if case.get("refusals"):
+            # reactions added call by call with refused calls in between: the document describes the accepted ones only
+            M = specmod.build_with_refusals(sp, case["refusals"], res)
+            if M is None:
+                return res
+            M.py_initialize()
+        else:
+            M = specmod.to_model(sp, share_dicts=bool(case.get("share_dicts")))
     if case.get("share_dicts"):
         res.label("shared_parameter_dictionary")
     _verify(case, M, res, "")
@@ -52,6 +59,11 @@ def _verify(case, M, res, phase):
     if species_ids != set(sp["species"]):
         res.fail(("species_ids", flavour), got=sorted(species_ids), expected=sorted(sp["species"]))
         return res
+    for p in model.getListOfParameters():
+        if not p.isSetValue():          # (a kinetic law over a parameter without a value has no value either)
+            res.fail(("global_parameter_without_value", flavour), parameter=p.getId(), phase=phase or "first_export",
+                     model_value=float(M.get_parameter_dictionary().get(p.getId(), float("nan"))))
+            return res
     gparams = {p.getId(): p.getValue() for p in model.getListOfParameters()}
     props = M.get_propensities()
     pvals = np.array(M.get_parameter_values(), dtype=float)
@@ -142,8 +154,16 @@ def cases(draw):
             states.append({s: float(draw(st.one_of(st.sampled_from([0, 1, 2]), st.integers(0, 12)))) for s in sp["species"]})
         else:
             states.append({s: draw(st.one_of(st.sampled_from([0.0, 1.0]), gen.amount(12))) for s in sp["species"]})
+    # a switched-off term now and then: a named parameter that is exactly zero
+    named = sorted(sp["params"])
+    if named and draw(st.integers(0, 5)) == 0:
+        sp["params"][draw(st.sampled_from(named))] = 0.0
+    refusals = []
+    if not share and draw(st.integers(0, 5)) == 0:
+        refusals = [[draw(st.integers(0, len(sp["reactions"]))), draw(st.sampled_from(specmod.REFUSAL_KINDS))]
+                    for _ in range(draw(st.integers(1, 2)))]
     return {"kind": "export", "spec": sp, "stochastic": stochastic, "states": states, "share_dicts": share,
-            "again_after_value_change": draw(st.integers(0, 3)) == 0}
+            "again_after_value_change": draw(st.integers(0, 3)) == 0, "refusals": refusals}
 
 
 def search(ctx):
